@@ -1,25 +1,34 @@
 #!/bin/sh
-# ThreadSanitizer runs for C07 (documented in NOTES_par.md; not part of check.py because a part
-# cannot yet mix build variants).  Two builds:
+# ThreadSanitizer runs for C07 (documented in NOTES_par.md / NOTES_par2.md).  check.py cannot mix build variants
+# inside one property, so the harness component `partsan` (harness/ops_partsan.c) calls this script in the THOROUGH
+# tier (clang mode) and turns its outcome into one op line.  Two builds:
 #   gcc   : VARIANTS["tsan"] of tools/vlib.py (gcc + libgomp).  libgomp is not instrumented, so
 #           only the scenarios without OpenMP worker threads are meaningful (VERIF_PAR_ONLY=pthread).
 #   clang : clang-14 + LLVM libomp + the Archer OMPT tool (libarcher.so), which tells TSan about
 #           OpenMP's fork/join/barrier/critical synchronisation -> the OpenMP loops of
 #           carquet_batch_reader_next can be analysed.
-# usage: tools/par_tsan.sh gcc|clang [seed] [tier]       (VERIF_REPO selects the tree)
+# usage: tools/par_tsan.sh gcc|clang [seed] [tier]       (VERIF_REPO selects the tree; VERIF_BUILD_DIR the scratch
+#        directory, default <verif>/build; PAR_TSAN_TAG a suffix that keeps concurrent runs apart)
+# outputs: <build>/par-tsan-<mode><tag>.ops (op lines) and .err (sanitizer reports); exit 77 = tool chain missing
 set -e
 V=$(cd "$(dirname "$0")/.." && pwd)
 REPO=${VERIF_REPO:-/repo}
 MODE=${1:-gcc}; SEED=${2:-1}; TIER=${3:-quick}
-mkdir -p "$V/build"
+RC=0
+B=${VERIF_BUILD_DIR:-$V/build}
+TAG=${PAR_TSAN_TAG:+-$PAR_TSAN_TAG}
+mkdir -p "$B"
 if [ "$MODE" = gcc ]; then
   EXE=$(cd "$V/tools" && VERIF_REPO="$REPO" python3 -c "import vlib; print(vlib.build_harness('tsan'))")
   TSAN_OPTIONS="halt_on_error=0 exitcode=0 report_signal_unsafe=0" VERIF_PAR_ONLY=pthread \
-    "$EXE" par --seed "$SEED" --tier "$TIER" --out "$V/build/par-tsan-gcc.ops" 2> "$V/build/par-tsan-gcc.err" || true
-  OUT="$V/build/par-tsan-gcc"
+    "$EXE" par --seed "$SEED" --tier "$TIER" --out "$B/par-tsan-gcc$TAG.ops" 2> "$B/par-tsan-gcc$TAG.err" || true
+  OUT="$B/par-tsan-gcc$TAG"
 else
-  D="$V/build/h-tsan-clang"; rm -rf "$D"; mkdir -p "$D"
   CC=clang-14
+  if ! command -v $CC >/dev/null 2>&1 || [ ! -e /usr/lib/llvm-14/lib/libarcher.so ] || [ ! -e /usr/lib/llvm-14/lib/libomp.so ]; then
+    echo "SKIP: clang-14 / libomp / libarcher not installed"; exit 77
+  fi
+  D="$B/h-tsan-clang$TAG"; rm -rf "$D"; mkdir -p "$D"
   BASE="-std=gnu11 -w -O1 -g -fsanitize=thread -fopenmp -DCARQUET_ARCH_X86 -DCARQUET_ENABLE_SSE -DCARQUET_ENABLE_AVX2 -DCARQUET_ENABLE_AVX512 -DCARQUET_VERIF -I$REPO/include -I$REPO/src -isystem /root/miniconda/include -I$V/harness"
   OBJS=""
   for f in $(cd "$REPO" && find src -name '*.c' | grep -v simd/arm | sort); do
@@ -37,20 +46,35 @@ else
   cat > "$D/registry.c" <<EOF
 #include "common.h"
 extern const h_component comp_par;
-const h_component* const h_components[] = { &comp_par };
-const int h_n_components = 1;
+extern const h_component comp_pardict;
+const h_component* const h_components[] = { &comp_par, &comp_pardict };
+const int h_n_components = 2;
 EOF
-  for f in main.c alloc_wrap.c ops_par.c; do $CC $BASE -c "$V/harness/$f" -o "$D/hx_${f%.c}.o"; OBJS="$OBJS $D/hx_${f%.c}.o"; done
+  for f in main.c alloc_wrap.c ops_par.c ops_pardict.c; do $CC $BASE -c "$V/harness/$f" -o "$D/hx_${f%.c}.o"; OBJS="$OBJS $D/hx_${f%.c}.o"; done
   $CC $BASE -c "$D/registry.c" -o "$D/registry.o"
   $CC -fsanitize=thread -fopenmp $OBJS "$D/registry.o" /root/miniconda/lib/libzstd.a -lz -lm -lpthread \
-      -Wl,--wrap=malloc,--wrap=calloc,--wrap=realloc -o "$D/harness"
+      -Wl,--wrap=malloc,--wrap=calloc,--wrap=realloc,--wrap=strdup \
+      -Wl,--wrap=carquet_arena_alloc,--wrap=carquet_arena_calloc,--wrap=carquet_arena_alloc_aligned \
+      -Wl,--wrap=carquet_arena_strdup,--wrap=carquet_arena_strndup,--wrap=carquet_arena_memdup -o "$D/harness"
+  OUT="$B/par-tsan-clang$TAG"
   OMP_TOOL_LIBRARIES=/usr/lib/llvm-14/lib/libarcher.so ARCHER_OPTIONS="verbose=1" \
   TSAN_OPTIONS="halt_on_error=0 exitcode=0 report_signal_unsafe=0 ignore_noninstrumented_modules=1" \
   LD_LIBRARY_PATH=/usr/lib/llvm-14/lib \
-    timeout 1500 "$D/harness" par --seed "$SEED" --tier "$TIER" --out "$V/build/par-tsan-clang.ops" 2> "$V/build/par-tsan-clang.err" || echo "harness exit $?"
-  OUT="$V/build/par-tsan-clang"
+    timeout 1500 "$D/harness" par --seed "$SEED" --tier "$TIER" --out "$OUT.ops" 2> "$OUT.err" || RC=$?
+  # the dictionary-encoded files of the Lean reference writer (needs the built driver); clang emits __kmpc_critical, so
+  # the GOMP interposer of ops_pardict.c stays unused here: no section events, no schedule points at section boundaries
+  if [ -x "$V/lean/.lake/build/bin/driver" ]; then
+    "$V/lean/.lake/build/bin/driver" --gen pardict "$SEED" "$TIER" > "$OUT-pardict.in"
+    OMP_TOOL_LIBRARIES=/usr/lib/llvm-14/lib/libarcher.so ARCHER_OPTIONS="verbose=1" \
+    TSAN_OPTIONS="halt_on_error=0 exitcode=0 report_signal_unsafe=0 ignore_noninstrumented_modules=1" \
+    LD_LIBRARY_PATH=/usr/lib/llvm-14/lib \
+      timeout 1500 "$D/harness" pardict --seed "$SEED" --tier "$TIER" --in "$OUT-pardict.in" --out "$OUT-pardict.ops" 2>> "$OUT.err" || RC=$?
+    cat "$OUT-pardict.ops" >> "$OUT.ops"
+  fi
+  rm -rf "$D" "$OUT-pardict.in" "$OUT-pardict.ops"
 fi
+echo "harness_rc=$RC"
 echo "reports: $(grep -c 'WARNING: ThreadSanitizer' "$OUT.err" || true)"
 grep 'SUMMARY' "$OUT.err" | sed 's/ (harness.*//; s/(.*+0x[0-9a-f]*)//' | sort | uniq -c | sort -rn | head -40
 echo "lines with property predicate true : $(grep -c 'p_same_as_[a-z]*=1' "$OUT.ops" || true)"
-echo "lines with property predicate false: $(grep -c 'p_same_as_[a-z]*=0' "$OUT.ops" || true)"
+echo "lines with property predicate false: $(grep -c 'p_[a-z_]*=0' "$OUT.ops" || true)"
